@@ -444,3 +444,56 @@ Print Assumptions C14_remote_complete_partial.
 Print Assumptions C14_remote_shutdown_complete.
 Print Assumptions C14_remote_final_complete.
 Print Assumptions C14_remote_complete_needs_final.
+
+(* --------------------------------------------------------------------------------------------------
+   (S2) for runs without fault steps.  Proofs/RemoteSessionFaultFree.v: invariant FFA of every reachable state with
+   nfault = 0 - the connection is not cut, every frame boss->doer on the wire is good, NO COMMS THREAD OF THE DOER ENDS
+   WITH Err WHILE THE BOSS STILL HOLDS ITS SOCKET (sending thread: k_i7; receiving thread: k_i2 - it can end with Err
+   only after the doer's main thread dropped its receiver or the boss closed its end; uses C10_remote_expected_nonce),
+   the doer's receiving thread ends Ok only after pushing the Shutdown, and a doer that left its message loop without
+   having seen the Shutdown did so after the boss had given up waiting for the final message.
+     C14_remote_faultfree_shutdown_seen : fault-free, the boss took the final message as its final message
+                                          => the doer took the Shutdown.
+     C14_remote_complete_faultfree      : fault-free, the boss took the final message as its final message
+                                          => everything handed over was delivered exactly once, in order, in both
+                                          directions, both receiving channels are empty, the doer executed exactly the
+                                          boss's commands in order.  (In every reachable state - final or not.)
+   The premise "bfin = true" is observable: it is false exactly when Comms::shutdown logs "Unexpected response as final
+   message".  STILL MISSING: its derivation from a premise on the op list.  RemoteSessionFaultFree.reads_all_answers is
+   that decidable premise (every answer a command produces is received by a blocking receive before the final wait;
+   polls anywhere, not counted on to drain anything; C14_remote_complete_needs_final's protocol violates it, the
+   protocols of the real boss satisfy it when each poll that found an answer is rendered as a receive - design.d/C14.md);
+   "fault-free /\ final /\ reads_all_answers ops => bfin" is NOT proved (needs the boss-side mirror of FFA, the
+   accounting |answers taken| >= |answers of the commands handed over|, and "a fault-free run does not fail"). *)
+From RJ Require Proofs.RemoteSessionFaultFree.
+
+Theorem C14_remote_faultfree_shutdown_seen : forall c x s, RemoteSession.reach c x s ->
+  RemoteSession.nfault (RemoteSession.ev s) = 0%nat -> RemoteSession.bfin (RemoteSession.bm s) = true ->
+  In RemoteSession.MShut (RemoteSession.hgot (RemoteSession.de s)).
+Proof. exact RemoteSessionFaultFree.faultfree_final_taken. Qed.
+
+Theorem C14_remote_complete_faultfree : forall c x s, RemoteSession.reach c x s ->
+  RemoteSession.nfault (RemoteSession.ev s) = 0%nat -> RemoteSession.bfin (RemoteSession.bm s) = true ->
+  RemoteSession.hgot (RemoteSession.de s) = RemoteSession.hsent (RemoteSession.be s) /\
+  RemoteSession.hgot (RemoteSession.be s) = RemoteSession.hsent (RemoteSession.de s) /\
+  RemoteSession.dexec (RemoteSession.dm s) = RemoteSessionAInv.cmd_ids (RemoteSession.hsent (RemoteSession.be s)) /\
+  RemoteSession.q (RemoteSession.inc (RemoteSession.de s)) = [] /\
+  RemoteSession.q (RemoteSession.inc (RemoteSession.be s)) = [].
+Proof. exact RemoteSessionFaultFree.remote_complete_faultfree_bfin. Qed.
+
+(* the premises are met by the final state of a complete session whose protocol satisfies reads_all_answers;
+   the protocol of C14_remote_complete_needs_final does not satisfy it *)
+Example C14_remote_example_faultfree : exists c x s,
+  RemoteSession.reach c x s /\ RemoteSession.final s = true /\ RemoteSession.nfault (RemoteSession.ev s) = 0%nat /\
+  RemoteSession.bfin (RemoteSession.bm s) = true /\
+  RemoteSessionFaultFree.reads_all_answers (RemoteSession.sc_ops x) = true /\
+  RemoteSessionFaultFree.reads_all_answers (RemoteSession.sc_ops RemoteSessionWitness2.sc_noread) = false.
+Proof.
+  exists (RemoteSessionWitness.cfg 0 0), RemoteSessionWitness2.sc_cov, (RemoteSessionLog.base RemoteSessionWitness2.l_cov).
+  destruct RemoteSessionWitness2.log_of_a_complete_session as (A & B & _ & _ & _ & _ & C & D & E & _).
+  split; [apply RemoteSessionNonce.lreach_base; exact A|]. split; [exact B|]. split; [exact E|]. split; [exact C|].
+  split; reflexivity.
+Qed.
+
+Print Assumptions C14_remote_faultfree_shutdown_seen.
+Print Assumptions C14_remote_complete_faultfree.
